@@ -730,11 +730,21 @@ class FlowSetExpr(SetExpr):
                 isinstance(expr.ctx, ast.Load):
             # value read back from a local dict: D[k] <- the value stored
             # with D[k] = v (evaluated where it was stored)
+            dname = expr.value.id
+            for _hop in range(3):
+                # the dict may have been handed over under another name
+                # (D = E, E a local dict)
+                vals = def_values(self.graph, self.rdefs, self.at, dname)
+                if vals and len(vals) == 1 and isinstance(vals[0],
+                                                          ast.Name):
+                    dname = vals[0].id
+                else:
+                    break
             stores = [n for n in self.graph.nodes if n.kind == 'stmt' and
                       isinstance(n.ast, ast.Assign) and
                       len(n.ast.targets) == 1 and
                       isinstance(n.ast.targets[0], ast.Subscript) and
-                      N.txt(n.ast.targets[0].value) == expr.value.id]
+                      N.txt(n.ast.targets[0].value) == dname]
             if len(stores) == 1:
                 saved = self.at
                 self.at = stores[0]
